@@ -262,6 +262,40 @@ theorem inv_init : Inv init := by
     decide
   · intro x hx; cases hx
 
+/-- single-byte keys of strictly increasing indices are sorted -/
+theorem sorted_slots (l : List Nat) (h : l.Pairwise (· < ·)) :
+    Map.Sorted (l.map (fun i => (([i] : Bytes), ([] : List Node)))) := by
+  unfold Map.Sorted
+  rw [List.pairwise_map]
+  exact h.imp (fun hab => blt_cons_lt _ _ [] [] hab)
+
+theorem initSlots_increasing (k : Nat) : (initSlots k).Pairwise (· < ·) := by
+  unfold initSlots
+  dsimp only
+  split
+  · exact List.pairwise_lt_range
+  · rename_i hk
+    have hd : Generated.netmap_DefaultSnapshotCount.toNat = 10 := rfl
+    rw [hd] at hk ⊢
+    rw [List.pairwise_cons]
+    constructor
+    · intro x hx
+      obtain ⟨i, _, rfl⟩ := List.mem_map.mp hx
+      omega
+    · rw [List.pairwise_map]
+      exact List.pairwise_lt_range.imp (fun hab => by omega)
+
+/-- the deployment resized once to any positive count satisfies the invariant: every theorem about histories from a
+state with `Inv` holds from these roots too -/
+theorem inv_initWith (k : Nat) (hk : 0 < k) : Inv (initWith k) := by
+  refine ⟨sorted_slots _ (initSlots_increasing k), Map.sorted_nil, Map.sorted_nil, Map.sorted_nil, ?_,
+    (show (0 : Int) ≤ 0 by decide), ?_, rfl, (show ([] : List Hash).length ≤ 256 by decide), List.nodup_nil⟩
+  · show (0 : Int) < (k : Int)
+    omega
+  · intro x hx; cases hx
+
+theorem initWith_default : initWith Generated.netmap_DefaultSnapshotCount.toNat = init := by decide
+
 theorem sorted_updCands (s : State) (k : Key) (st : Int) (h : Map.Sorted s.cands) : Map.Sorted (updCands s k st) := by
   unfold updCands; cases s.cands.get k with
   | none => exact h
@@ -903,6 +937,7 @@ theorem abs_run (s : State) (hist : List (Env × Op)) : abs (run s hist) = Spec.
     rw [ih, abs_invoke]; rfl
 
 theorem abs_init : abs init = Spec.Cand.empty := rfl
+theorem abs_initWith (k : Nat) : abs (initWith k) = Spec.Cand.empty := rfl
 
 /-! ### C07: well-formedness of the candidate table along all histories (at the level of the specification) -/
 
